@@ -228,6 +228,26 @@ def run(tier):
                      "cwd %s\npenne emit --out-dir outabs %s\nexit 0; files under outabs: none; %s exists: %s" % (d, ab, ab + ".ll", os.path.exists(ab + ".ll")))
     elif p.returncode == 0 and [os.path.relpath(x, d) for x in got] != [want]:
         ck.violation("tie-broken:out-path", "an absolute module path: files written %s, Model/OutPath.v says %s" % (got, want), "cwd %s\npenne emit --out-dir outabs %s" % (d, ab))
+    # an embedded package given as a DIRECTORY argument (`vendor:libc`, `core:text`): every file of it is a module of
+    # its own name, a valid program that imports one of them compiles, and every module leaves its own .pn.ll
+    pk = os.path.join(root, "pkg"); shutil.rmtree(pk, ignore_errors=True); os.makedirs(pk)
+    open(os.path.join(pk, "call.pn"), "w").write('import "vendor:libc/stdlib.pn";\nfn main() -> u8\n{\n\tvar ptr: &[..]u8 = malloc(10);\n\tptr[5] = 5;\n\tvar result = ptr[5];\n\tfree(&ptr);\n\treturn: result\n}\n')
+    open(os.path.join(pk, "up.pn"), "w").write('import "core:text/char.pn";\nfn main() -> u8\n{\n\treturn: 0\n}\n')
+    npk = 0
+    for pargs, pwant in ((["vendor:libc", "call.pn"], ["call.pn.ll", "vendor:libc/ctype.pn.ll", "vendor:libc/stdlib.pn.ll", "vendor:libc/string.pn.ll"]),
+                         (["call.pn", "vendor:libc"], ["call.pn.ll", "vendor:libc/ctype.pn.ll", "vendor:libc/stdlib.pn.ll", "vendor:libc/string.pn.ll"]),
+                         (["vendor:libc"], ["vendor:libc/ctype.pn.ll", "vendor:libc/stdlib.pn.ll", "vendor:libc/string.pn.ll"]),
+                         (["vendor:libc/stdlib.pn", "call.pn"], ["call.pn.ll", "vendor:libc/stdlib.pn.ll"]),
+                         (["core:text", "up.pn"], ["core:text/char.pn.ll", "up.pn.ll"])):
+        shutil.rmtree(os.path.join(pk, "out"), ignore_errors=True)
+        p = subprocess.run([PENNE, "emit", "--color=never", "--out-dir", "out"] + pargs, cwd=pk, capture_output=True, timeout=120)
+        got = sorted(os.path.relpath(os.path.join(dp, f), os.path.join(pk, "out")) for dp, _, fs in os.walk(os.path.join(pk, "out")) for f in fs)
+        npk += 1
+        if p.returncode != 0 or got != sorted(pwant):
+            bad += 1
+            ck.violation("package-directory-argument", "penne emit --out-dir out %s: exit %d, files %s; a valid program, expected exit 0 and %s" % (" ".join(pargs), p.returncode, got, sorted(pwant)),
+                         "cwd %s\ncall.pn:\n%s\noutput:\n%s" % (pk, open(os.path.join(pk, "call.pn")).read(), (p.stdout + p.stderr).decode(errors="replace")[-1500:]))
+    ck.log("package directory arguments: %d invocations" % npk)
     ck.log("cli: %d invocations %s, %d problems" % (len(runs), dict(stats), bad))
     if not proof_ok:
         ck.violation("tie-broken:proof", "Props/C18.v no longer checks", getattr(ck, "proof_output", "")[-2000:])
